@@ -188,6 +188,11 @@ func (en *encoder) node(n schema.Node, m *mNode) {
 			ms.At(i).SetCodeOrder(uint16(i))
 			ms.At(i).SetParamStructType(x.Params.ID)
 			ms.At(i).SetResultStructType(x.Results.ID)
+			if x.Rename != "" {
+				as, e := ms.At(i).NewAnnotations(1)
+				must(e)
+				en.textAnn(as.At(0), annName, x.Rename)
+			}
 		}
 		ss, e := n.Interface().NewSuperclasses(int32(len(m.Supers)))
 		must(e)
@@ -232,6 +237,11 @@ func (en *encoder) field(f schema.Field, m *mField, ordinal int) {
 	t, e := sl.NewType()
 	must(e)
 	en.typ(t, m.T)
+	sl.SetHadExplicitDefault(m.Explicit)
+	f.Ordinal().SetExplicit(uint16(ordinal))
+	if m.NullDef {
+		return // no defaultValue pointer: the zero default
+	}
 	v, e := sl.NewDefaultValue()
 	must(e)
 	var dv *mVal
@@ -242,8 +252,6 @@ func (en *encoder) field(f schema.Field, m *mField, ordinal int) {
 		dv = m.PDef
 	}
 	en.value(v, m.T, dv)
-	sl.SetHadExplicitDefault(m.Explicit)
-	f.Ordinal().SetExplicit(uint16(ordinal))
 }
 
 func (en *encoder) typ(t schema.Type, m *mType) {
